@@ -109,10 +109,22 @@ def let_substitutions(root, deep=False):
 
     def ok_init(init):
         return isinstance(init, dict) and (init.get("k") in ("call", "bin", "logic", "un", "field", "lit") or matches_as_eq(init) is not None
+                                           or (deep and init.get("k") in ("if", "adt", "tuple", "var", "upvar", "const"))
                                            or (deep and init.get("k") == "match" and (init.get("src") == "AwaitDesugar" or str(init.get("src", "")).startswith("TryDesugar"))))
 
+    reassigned = set()
+    if deep:
+        for n in _t.walk(root):
+            if n.get("k") in ("assign", "assignop") and isinstance(n.get("a"), dict) and n["a"].get("k") == "var" and "id" in n["a"]:
+                reassigned.add(n["a"]["id"])
+
     def plain(p):
-        return isinstance(p, dict) and p.get("k") == "bind" and "sub" not in p and p.get("mode") == "BindingMode(No, Not)"
+        if not (isinstance(p, dict) and p.get("k") == "bind" and "sub" not in p):
+            return False
+        if p.get("mode") == "BindingMode(No, Not)":
+            return True
+        # deep: a `let mut g = lock()` that is only written *through* (`*g = v`, `g.push(..)`) and never re-bound still names its initialiser
+        return deep and p.get("mode") == "BindingMode(No, Mut)" and "id" in p and p["id"] not in reassigned
 
     def destructure(p, init):
         """irrefutable struct / tuple patterns: each plainly bound field stands for <init>.<field>"""
@@ -137,7 +149,8 @@ def let_substitutions(root, deep=False):
             if plain(p) and isinstance(n.get("i"), dict):
                 init = _t.peel(n["i"])
                 if ok_init(init):
-                    inits[p["n"]] = n["i"]
+                    if p.get("mode") == "BindingMode(No, Not)":
+                        inits[p["n"]] = n["i"]
                     if "id" in p:
                         byid["#%d" % p["id"]] = n["i"]
             elif deep and isinstance(n.get("i"), dict) and n.get("else") is None:
@@ -150,6 +163,57 @@ def let_substitutions(root, deep=False):
     out = {k: v for k, v in inits.items() if counts.get(k, 0) == 1}
     out.update(byid)
     return out
+
+
+_TAKEN = {}
+
+
+def desc_on(path, e):
+    """desc(e) with every `if` whose branch the path `path` fixes described as the branch taken"""
+    global _TAKEN
+    saved = _TAKEN
+    _TAKEN = dict(saved)
+    for ev in path.ev:
+        if ev[0] == "branch" and len(ev) > 3 and isinstance(ev[3], Ref) and isinstance(ev[3].n, dict) and ev[3].n.get("k") == "if":
+            node = ev[3].n
+            _, neg = split_not(desc(node["c"]))
+            _TAKEN[id(node)] = ev[2] if not neg else (not ev[2])
+    try:
+        return desc(e)
+    finally:
+        _TAKEN = saved
+
+
+class reading_through:
+    """with pathx.reading_through(root): desc() reads every single-assignment local of the body through to its initialiser"""
+
+    def __init__(self, root, deep=True):
+        self.root, self.deep = root, deep
+
+    def __enter__(self):
+        global SUBST
+        self.saved = SUBST
+        SUBST = let_substitutions(self.root, deep=self.deep)
+        return self
+
+    def __exit__(self, *a):
+        global SUBST
+        SUBST = self.saved
+        return False
+
+
+def value_of(root):
+    """the expression a body evaluates to when its statements are only `let`s that desc() reads through (use inside reading_through)"""
+    e = root
+    while isinstance(e, dict):
+        k = e.get("k")
+        if k == "block" and e.get("e") is not None and all(isinstance(x, dict) and x.get("k") == "let" and x.get("else") is None for x in e.get("s", [])):
+            e = e["e"]
+        elif k in ("ref", "deref", "coerce", "rawref", "cast"):
+            e = e["e"]
+        else:
+            break
+    return e
 
 
 def matches_as_eq(e):
@@ -241,6 +305,9 @@ def desc(e):
         if inner.get("k") == "call" and inner.get("a"):
             return desc(inner["a"][0]) + "?"
         return "?"
+    if k == "if" and id(e) in _TAKEN:
+        br = e["t"] if _TAKEN[id(e)] else e.get("e")
+        return desc(br) if br is not None else "()"
     if k == "if":
         c = thir.peel(e["c"]) if isinstance(e.get("c"), dict) else None
         if isinstance(c, dict) and c.get("k") == "lit" and isinstance(c.get("b"), bool):
